@@ -1195,7 +1195,7 @@ def _drive(h, env, reactor, tor, tors, rec, viol, bad, info, verdict, reason, hs
                 return
 
     def check_mapping(maps, where):
-        openp = [p.port for p in reactor.open_ports() if p.kind == 'tcp' and is_loopback(p.interface)]
+        openp = [p.port for p in reactor.open_ports() if p.kind == 'tcp']
         ok = (len(maps) == 1 and maps[0][0] == pub and maps[0][1] is not None and maps[0][2] is not None
               and is_loopback(maps[0][1]) and maps[0][2] in openp)
         if not ok:
